@@ -222,6 +222,7 @@ func Load(repoDir, tags, goos string) (*Prog, error) {
 		normalizeIterCalls(pkg)
 		normalizeVarDecls(pkg)
 		normalizeGoCalls(pkg)
+		normalizeIndexLoops(pkg)
 		normalizeHoistedRanges(pkg)
 		unrollTableLoops(pkg)
 	}
